@@ -1201,12 +1201,26 @@ impl MutableArchive {
             return self.write_tables_v3_plus();
         }
 
-        // For V1/V2 archives, use the original simple approach
+        // For V1/V2 archives: the block table may have grown, so the tables cannot be
+        // rewritten at their old position (files appended in this session start right
+        // behind them). Write both tables behind all file data and let update_header()
+        // record the new positions.
         let archive_offset = self.archive.archive_offset();
+        let tables_start = self.get_archive_end_offset()?;
+        let hash_table_bytes = self
+            .hash_table
+            .as_ref()
+            .map(|t| t.entries().len() as u64 * 16)
+            .unwrap_or(0);
+        let block_table_bytes = self
+            .block_table
+            .as_ref()
+            .map(|t| t.entries().len() as u64 * 16)
+            .unwrap_or(0);
 
         // Write hash table
         if let Some(hash_table) = &self.hash_table {
-            let hash_table_pos = archive_offset + header.hash_table_pos as u64;
+            let hash_table_pos = tables_start;
             self.file.seek(SeekFrom::Start(hash_table_pos))?;
 
             // Convert to bytes and encrypt
@@ -1235,7 +1249,7 @@ impl MutableArchive {
 
         // Write block table
         if let Some(block_table) = &self.block_table {
-            let block_table_pos = archive_offset + header.block_table_pos as u64;
+            let block_table_pos = tables_start + hash_table_bytes;
             self.file.seek(SeekFrom::Start(block_table_pos))?;
 
             // Convert to bytes and encrypt
@@ -1260,6 +1274,12 @@ impl MutableArchive {
                 self.file.write_all(&value.to_le_bytes())?;
             }
         }
+
+        // Remember where the tables are now; later additions go behind them
+        let tables_end = tables_start + hash_table_bytes + block_table_bytes;
+        self.updated_hash_table_pos = Some(tables_start - archive_offset);
+        self.updated_block_table_pos = Some(tables_start - archive_offset + hash_table_bytes);
+        self.next_file_offset = Some((tables_end + 511) & !511);
 
         Ok(())
     }
@@ -1607,6 +1627,15 @@ impl MutableArchive {
                 header.block_table_size = new_size;
                 needs_update = true;
             }
+        }
+
+        // Relocated tables (V1/V2) always require a header update
+        if header.format_version < FormatVersion::V3
+            && let (Some(_), Some(block_pos)) =
+                (self.updated_hash_table_pos, self.updated_block_table_pos)
+        {
+            header.archive_size = (block_pos + header.block_table_size as u64 * 16) as u32;
+            needs_update = true;
         }
 
         if needs_update {
